@@ -137,6 +137,21 @@ Theorem json_enum_forms : forall e names name value, jnum e = true -> jname e = 
 Proof. exact json_enum_forms_l. Qed.
 Print Assumptions json_enum_forms.
 
+(* malformed tokens are ERRORS of the model, not undefined behaviour: a hex id is accepted exactly when
+   it is empty or as long as the id (so a short or an OVER-LONG id is rejected); an integer outside the
+   range of its field is rejected in the number form and in the string form.  Case kind 6 compares
+   acceptance TWO-SIDEDLY with the implementation on every id / integer / enum / bool / bytes field. *)
+Theorem json_id_length : forall E rec e m d n cur b, fty d = TId n -> jstr e = true ->
+  (oj_one E rec e m d cur (JHex b) <> None <-> (blen b = 0 \/ blen b = n)).
+Proof. exact json_id_length_l. Qed.
+Print Assumptions json_id_length.
+
+Theorem json_int_range : forall e names k z,
+  match k with SBool | SDouble => False | _ => True end -> int_to_field k z = None ->
+  oj_scalar e names k (JInt z) = None /\ oj_scalar e names k (JIntStr z) = None.
+Proof. exact json_int_range_l. Qed.
+Print Assumptions json_int_range.
+
 (* ---- JSON instance obligations: the decoder table is re-observed on the running decoders and
    these are re-proved on every check run --------------------------------------------------------- *)
 (* covers: the decoder table covers EVERY field of every message reachable from the four request
